@@ -166,6 +166,7 @@ theorem prov_step (cfg : Cfg) (s : St) (a : Act) (hi : Inv s) (h : Prov s) : Pro
           · exact h.2 g gl m hg hgr
           · cases hgr
     · exact h
+  | gone i => exact ⟨h.1, h.2, h.3⟩
   | evict k => simp only [step]; exact prov_cache_subset s _ (fun p hp => (mem_erase hp).1) h
   | respell k sp =>
     simp only [step]
@@ -308,6 +309,7 @@ theorem acc_step (cfg : Cfg) (hcfg : cfg.checkQuestion = true) (s : St) (a : Act
   | wake i => simp only [step]; (repeat' split) <;> exact h
   | evict k => exact h
   | respell k sp => exact h
+  | gone i => exact h
 
 theorem acc_run (cfg : Cfg) (hcfg : cfg.checkQuestion = true) (as : List Act) :
     ∀ s, AccSound s → AccSound (run cfg s as) := by
@@ -444,11 +446,36 @@ theorem formInv_step (cfg : Cfg) (s : St) (a : Act) (h : FormInv s) : FormInv (s
   | refresh i sch rounds => simp only [step]; split <;> exact h
   | evict k => exact h
   | respell k sp => exact h
+  | gone i => exact h
 
 theorem formInv_run (cfg : Cfg) (as : List Act) : ∀ s, FormInv s → FormInv (run cfg s as) := by
   induction as with
   | nil => intro s h; exact h
   | cons a as ih => intro s h; exact ih _ (formInv_step cfg s a h)
+
+/-! ### a client going away changes nothing for anybody -/
+
+theorem strip_step_gone (cfg : Cfg) (s : St) (i : Nat) : (step cfg s (.gone i)).strip = s.strip := rfl
+
+theorem strip_step (cfg : Cfg) (s : St) (a : Act) (h : a.isGone = false) :
+    (step cfg s a).strip = step cfg s.strip a := by
+  cases a <;> simp only [Act.isGone, Bool.true_eq_false] at h <;>
+    simp only [step, St.strip] <;> (repeat' split) <;> simp_all [St.setPc, St.emit]
+
+theorem strip_run (cfg : Cfg) (as : List Act) :
+    ∀ s, (run cfg s as).strip = run cfg s.strip (as.filter (fun a => !a.isGone)) := by
+  induction as with
+  | nil => intro s; rfl
+  | cons a as ih =>
+    intro s
+    simp only [run, List.foldl_cons] at ih ⊢
+    rw [ih]
+    cases hg : a.isGone
+    · simp only [List.filter_cons, hg, Bool.not_false, if_true, List.foldl_cons]
+      rw [strip_step cfg s a hg]
+    · cases a <;> simp only [Act.isGone, Bool.false_eq_true] at hg
+      simp only [List.filter_cons, Act.isGone, Bool.not_true, Bool.false_eq_true, if_false]
+      rw [strip_step_gone]
 
 end Ctl
 end DaeVerif.C09
